@@ -66,6 +66,16 @@ func rootElem(t reflect.Type) reflect.Type {
 	return t
 }
 
+// TypeByID returns the reflect.Type registered under id.
+func (p *P) TypeByID(id int) reflect.Type {
+	for t, i := range p.typeIdx {
+		if i == id {
+			return t
+		}
+	}
+	return nil
+}
+
 // TypeID returns the index (1-based) of t in the type table, adding it.
 func (p *P) TypeID(t reflect.Type) int {
 	if id, ok := p.typeIdx[t]; ok {
